@@ -17,7 +17,7 @@ from hypothesis import HealthCheck, Phase, given, seed as hseed, settings, strat
 
 from vlib import oracles
 from vlib.campaign import Campaign
-from vlib.engine_d import Run, inj_cancel, inj_pause, inj_recover, inj_signal, inj_start_stage, inj_unpause
+from vlib.engine_d import Run, inj_cancel, inj_pause, inj_recover, inj_restart, inj_signal, inj_start_stage, inj_unpause
 from vlib.par import run_shards
 from vlib.sched import make_schedule, schedule_desc
 from vlib.spec import features
@@ -121,6 +121,52 @@ def shard_pause(prop: str, tier: str, seed: int, n: int) -> dict[str, Any]:
         run.drain()
         judge_audit(c, run.w.audit(), {"engine": "D", "spec": spec, "schedule": sd, "inj": inj},
                     ["family:pause"] + [f"inj:{k}" for _a, k, _b in inj], "D")
+
+    t()
+    return c.export()
+
+
+def shard_restart(prop: str, tier: str, seed: int, n: int) -> dict[str, Any]:
+    """Operator restarts of finished (or unfinished) stages after the run went quiet, possibly several, each followed by a drain;
+    stages whose task jumps only on a later execution, so that a jump lands among stages that have already finished."""
+    from vlib.spec import emit, ok, stage
+
+    c = Campaign(prop, tier, seed, LEVEL)
+
+    @st.composite
+    def restart_case(draw):
+        k = draw(st.integers(2, 5))
+        refs = [f"s{i}" for i in range(k)]
+        stages = []
+        for i, r in enumerate(refs):
+            req = [] if i == 0 else [refs[draw(st.integers(max(0, i - 2), i - 1))]]
+            beh = draw(st.sampled_from(["ok", "ok", "two", "fail", "cof", "jump", "jump"]))
+            if beh == "jump":
+                tasks_ = [{"b": "jump", "to": refs[draw(st.integers(0, k - 1))], "j": draw(st.integers(1, 2)), "after": draw(st.integers(0, 2)), "emit": [emit("k_r", "iter")]}]
+            else:
+                tasks_ = {"ok": [ok()], "two": [ok(), ok()], "fail": [{"b": "fail"}], "cof": [{"b": "fail"}]}[beh]
+            s_ = stage(r, req, tasks_)
+            if beh == "cof":
+                s_["cof"] = True
+            stages.append(s_)
+        spec = {"name": "restart", "stages": stages, "max_jumps": draw(st.sampled_from([None, 1, 3]))}
+        posts = draw(st.lists(st.tuples(st.sampled_from(["restart", "restart", "restart", "cancel", "recover"]), st.integers(0, k - 1)).map(list), min_size=1, max_size=3))
+        return spec, draw(schedule_desc(max_len=40)), posts
+
+    @hseed(seed)
+    @settings(max_examples=n, database=None, deadline=None, derandomize=False, suppress_health_check=list(HealthCheck),
+              phases=[Phase.generate], report_multiple_bugs=False)
+    @given(restart_case())
+    def t(case):
+        spec, sd, posts = case
+        run = Run(spec, make_schedule(sd))
+        run.drain()
+        refs = [s["ref"] for s in spec["stages"]]
+        for kind, arg in posts:
+            {"restart": inj_restart(refs[arg]), "cancel": inj_cancel(), "recover": inj_recover(1)}[kind](run)
+            run.drain()
+        judge_audit(c, run.w.audit(), {"engine": "D", "family": "restart", "spec": spec, "schedule": sd, "post": posts},
+                    ["family:restart"] + [f"post:{k}" for k, _a in posts] + [f"feat:{f}" for f in features(spec)], "D")
 
     t()
     return c.export()
@@ -236,6 +282,7 @@ def run(c: Campaign, jobs: int) -> None:
     shards = max(1, jobs)
     args = [(shard_d, (c.prop, c.tier, c.seed * 1000 + k, max(1, n // shards))) for k in range(shards)]
     args += [(shard_pause, (c.prop, c.tier, c.seed * 1000 + 300 + k, max(1, n // (2 * shards)))) for k in range(shards)]
+    args += [(shard_restart, (c.prop, c.tier, c.seed * 1000 + 600 + k, max(1, n // (2 * shards)))) for k in range(shards)]
     try:
         import vlib.engine_k  # noqa: F401
 
@@ -266,9 +313,23 @@ def run(c: Campaign, jobs: int) -> None:
         "the published table is imported from stabilize.models.status at run time (a change to the table itself is not detected here)",
         "SQLite backend only",
     ]
-    for cls in ("inj:cancel", "inj:recover", "inj:signal", "feat:jump", "inj:pause", "inj:unpause", "engine:K:runs", "engine:I:runs"):
+    for cls in ("inj:cancel", "inj:recover", "inj:signal", "feat:jump", "inj:pause", "inj:unpause", "post:restart", "engine:K:runs", "engine:I:runs"):
         if c.classes.get(cls, 0) == 0:
             c.harness_error(f"generator starvation: class {cls} never produced")
+
+
+def _rerun_d(case: dict[str, Any]) -> Run:
+    run_ = Run(case["spec"], make_schedule(case["schedule"]))
+    if case.get("family") == "restart":
+        run_.drain()
+        refs = [s["ref"] for s in case["spec"]["stages"]]
+        for kind, arg in case["post"]:
+            {"restart": inj_restart(refs[arg]), "cancel": inj_cancel(), "recover": inj_recover(1)}[kind](run_)
+            run_.drain()
+        return run_
+    apply_injections(run_, case["spec"], case["inj"])
+    run_.drain()
+    return run_
 
 
 def _replay_i(case: dict[str, Any]) -> list[tuple[Any, ...]]:
@@ -313,9 +374,7 @@ def replay(c: Campaign, rec: dict[str, Any]) -> int:
     if case.get("engine") != "D":
         print("replay of K cases: re-run the campaign (the case names the spec and crash index)")
         return 2
-    run_ = Run(case["spec"], make_schedule(case["schedule"]))
-    apply_injections(run_, case["spec"], case["inj"])
-    run_.drain()
+    run_ = _rerun_d(case)
     viol = oracles.check_transitions(run_.w.audit())
     for b, d in viol:
         print(f"VIOLATION property={c.prop} replay=given\n  bucket: {b}\n  detail: {d}")
@@ -326,7 +385,5 @@ def replay(c: Campaign, rec: dict[str, Any]) -> int:
 
 def regress(c: Campaign, rec: dict[str, Any]) -> None:
     case = rec["case"]
-    run_ = Run(case["spec"], make_schedule(case["schedule"]))
-    apply_injections(run_, case["spec"], case["inj"])
-    run_.drain()
+    run_ = _rerun_d(case)
     judge_audit(c, run_.w.audit(), case, ["regression"], "D")
